@@ -6,7 +6,7 @@
    repaired by the fix: commits 50fc060 and 1070095). *)
 From Coq Require Import ZArith List Bool Lia.
 From Mistletoe Require Import Base.Sx Base.PyStr Base.PyText Gen.GenTables Gen.GenConfig Model.Tree Model.CoreTokens Model.Block Model.Build
-     Model.MarkdownRenderer Model.Parser Proofs.PlainProse Proofs.Prose Proofs.ProseLines Proofs.ListLaw Proofs.FenceLaw Spec.Fragment Proofs.InertProse Proofs.RefSentence Proofs.LinkSentence Proofs.EmphPhrases Proofs.LinkPhrases Proofs.MixPhrases Proofs.CodeSpan Proofs.HardBreaks Proofs.BreakBlocks Proofs.FragmentP Proofs.FragmentDoc Proofs.FragmentHtml.
+     Model.MarkdownRenderer Model.Parser Proofs.PlainProse Proofs.Prose Proofs.ProseLines Proofs.ListLaw Proofs.FenceLaw Spec.Fragment Proofs.InertProse Proofs.RefSentence Proofs.LinkSentence Proofs.EmphPhrases Proofs.LinkPhrases Proofs.MixPhrases Proofs.CodeSpan Proofs.HardBreaks Proofs.BreakBlocks Proofs.StrikeSentence Proofs.EscSentence Proofs.ImageSentence Proofs.LeafSpans Proofs.OneInline Proofs.FragmentP Proofs.FragmentDoc Proofs.FragmentHtml.
 Import ListNotations.
 Local Open Scope Z_scope.
 
@@ -302,6 +302,33 @@ Section RT.
     destruct more; discriminate.
   Qed.
 
+  Lemma rt_one c0 pre x post : wf_b (FOne c0 pre x post) = true -> RT (FOne c0 pre x post).
+  Proof.
+    intros Hw. destruct (one_wf _ _ _ _ Hw) as (Hok & _). destruct (inl_plain _ _ _ Hok) as [Hpre Hpost].
+    pose proof (inl_no 10 (c0 :: pre) x post (or_introl eq_refl) Hok) as N10.
+    unfold mem in N10. rewrite !existsb_app in N10. apply orb_false_iff in N10 as [_ N10]. apply orb_false_iff in N10 as [N10 _]. fold (mem 10 (inl_text x)) in N10.
+    unfold RT, md_lines. cbn [tok_of block_lines spell map bare repeat app]. unfold span_to_lines. cbn [fragments_to_lines].
+    assert (EF : exists frs, flat_map frags (RawText (c0 :: pre) :: inl_tok x :: EmphSentence.raw_if post) =
+                 Fw (c0 :: pre) :: frs ++ match post with [] => [] | _ => [Fw post] end /\
+                 Forall (fun f => mem 10 (ftext f) = false) frs /\ concat (map ftext frs) = inl_text x).
+    { destruct x as [w|c|w d]; cbn [inl_tok inl_text] in *.
+      - exists [F $"~~"; Fw w; F $"~~"]. split; [destruct post; reflexivity|]. split; [|reflexivity].
+        unfold mem in N10. rewrite !existsb_app in N10. apply orb_false_iff in N10 as [_ N10]. apply orb_false_iff in N10 as [N10 _].
+        repeat constructor; cbn [ftext F Fw]; try reflexivity. exact N10.
+      - exists [F ($"\" ++ [c])]. split; [destruct post; reflexivity|]. split; [|reflexivity]. repeat constructor. cbn [ftext F]. exact N10.
+      - exists [F $"!"; F $"["; Fw w; F $"]"; F $"("; F d; F $")"]. split; [destruct post; reflexivity|]. split; [|cbn [map concat ftext F Fw app]; rewrite ?app_nil_r; reflexivity].
+        unfold mem in N10. cbn [app existsb] in N10. rewrite !existsb_app in N10. cbn [existsb] in N10. rewrite !existsb_app in N10.
+        repeat (apply orb_false_iff in N10; destruct N10 as [? N10]).
+        repeat constructor; cbn [ftext F Fw]; try reflexivity; assumption. }
+    destruct EF as (frs & -> & Hf & Ec).
+    rewrite plain_from_flat.
+    - assert (E : concat (map ftext (Fw (c0 :: pre) :: frs ++ match post with [] => [] | _ => [Fw post] end)) = c0 :: one_body pre x post).
+      { cbn [map concat ftext Fw]. rewrite map_app, concat_app, Ec. unfold one_body. destruct post; cbn [map concat ftext Fw app]; rewrite ?app_nil_r; reflexivity. }
+      cbn [app] in E |- *. rewrite E. reflexivity.
+    - constructor; [cbn [ftext Fw]; apply (plain_no 10 _ eq_refl Hpre)|]. apply Forall_app. split; [exact Hf|].
+      destruct post; [constructor|]. repeat constructor. cbn [ftext Fw]. apply (plain_no 10 _ eq_refl Hpost).
+  Qed.
+
   Lemma rt_fence ch n content : wf_b (FFence ch n content) = true -> RT (FFence ch n content).
   Proof.
     intros Hw. destruct (fence_wf ch n content Hw) as ((Hch & Hn) & Hok & _).
@@ -351,9 +378,9 @@ Section RT.
   Proof.
     induction f as [|f IH].
     - intros t Hd Hw.
-      destruct t as [c body more|ch n content|ts|mk pad ts|mk pad ts bl next|lv hc hb|rc rn|e0 epre ech edbl ew epost|l0 lpre lw ldest lpost|s0 st0' sgs|k0 kpre kcode kpost|b0 bbody bk bmore]; [apply rt_para; exact Hw|apply rt_fence; assumption|cbn [depth] in Hd; lia|cbn [depth] in Hd; lia|cbn [depth] in Hd; lia|apply rt_head; exact Hw|apply rt_rule|apply rt_em; exact Hw|apply rt_link; exact Hw|apply rt_sent; exact Hw|apply rt_tick; exact Hw|apply rt_brk; exact Hw].
-    - intros t. induction t as [c body more|ch n content|ts|mk pad ts|mk pad ts bl next IHn|lv hc hb|rc rn|e0 epre ech edbl ew epost|l0 lpre lw ldest lpost|s0 st0' sgs|k0 kpre kcode kpost|b0 bbody bk bmore]; intros Hd Hw;
-        [apply rt_para; exact Hw|apply rt_fence; assumption| | | |apply rt_head; exact Hw|apply rt_rule|apply rt_em; exact Hw|apply rt_link; exact Hw|apply rt_sent; exact Hw|apply rt_tick; exact Hw|apply rt_brk; exact Hw].
+      destruct t as [c body more|ch n content|ts|mk pad ts|mk pad ts bl next|lv hc hb|rc rn|e0 epre ech edbl ew epost|l0 lpre lw ldest lpost|s0 st0' sgs|k0 kpre kcode kpost|b0 bbody bk bmore|o0 opre ox opost]; [apply rt_para; exact Hw|apply rt_fence; assumption|cbn [depth] in Hd; lia|cbn [depth] in Hd; lia|cbn [depth] in Hd; lia|apply rt_head; exact Hw|apply rt_rule|apply rt_em; exact Hw|apply rt_link; exact Hw|apply rt_sent; exact Hw|apply rt_tick; exact Hw|apply rt_brk; exact Hw|apply rt_one; exact Hw].
+    - intros t. induction t as [c body more|ch n content|ts|mk pad ts|mk pad ts bl next IHn|lv hc hb|rc rn|e0 epre ech edbl ew epost|l0 lpre lw ldest lpost|s0 st0' sgs|k0 kpre kcode kpost|b0 bbody bk bmore|o0 opre ox opost]; intros Hd Hw;
+        [apply rt_para; exact Hw|apply rt_fence; assumption| | | |apply rt_head; exact Hw|apply rt_rule|apply rt_em; exact Hw|apply rt_link; exact Hw|apply rt_sent; exact Hw|apply rt_tick; exact Hw|apply rt_brk; exact Hw|apply rt_one; exact Hw].
       + (* quote *)
         cbn [wf_b] in Hw. repeat rewrite andb_true_iff in Hw. destruct Hw as [[Hs Hall] Hg].
         assert (Hch : Forall RT ts).
